@@ -34,7 +34,7 @@ EXHAUSTIVE = {'quick': 'all byte strings of length <=3 over a 35-symbol alphabet
               'thorough': 'all byte strings of length <=4 over a 35-symbol alphabet after 5 prefixes in the proof phase; length <=3 in gamma/claim phases'}
 FLOORS = {
     'quick': {'cases': 100000, 'accepted_both': 1000, 'accepted_nonempty_state': 1000, 'snapshot_accepted': 10,
-              'binary_sampled': 50, 'o2_reject:underflow': 10, 'o2_reject:type_confusion': 10, 'o2_reject:bad_index': 10,
+              'binary_sampled': 50, 'src:operand_cut_at_end_of_phase': 2000, 'o2_reject:underflow': 10, 'o2_reject:type_confusion': 10, 'o2_reject:bad_index': 10,
               'o2_reject:truncated': 10, 'o2_reject:unknown_opcode': 10, 'o2_reject:rule': 10, 'o2_reject:side_condition': 10,
               'o2_reject:ill_formed': 10, 'o2_reject:constraint': 10, 'o2_reject:capture': 5, 'o2_reject:claim_mismatch': 10,
               'o2_reject:unproved_claims': 10, 'o2_reject:unsupported': 10},
@@ -301,6 +301,34 @@ def shard(ctx):
                 runner.add(g, c, p[:b] + bytes([29, rng.choice((200, 255, 50))]) + p[b:], 'bad_load_inserted')
             else:
                 runner.add(g, c, p[:b] + bytes([rng.choice((12, 13, 2)), 0][:rng.choice((1, 2))]) + p[b:], 'push_inserted')
+    # (vi) every operand-carrying instruction as the LAST instruction of a phase file, cut at every byte inside its operands
+    #      (a truncated operand must be rejected wherever it is, also at the very end of the input)
+    for _ in range(ctx.scale(1600, 40000)):
+        kind = rng.choice(('one', 'one', 'metavar', 'metavar', 'instantiate'))
+        if kind == 'one':
+            op = rng.choice((2, 3, 4, 7, 8, 10, 11, 22, 24, 29, 137))
+            pre = {7: bytes([4, 0]), 8: bytes([4, 0]), 10: bytes([4, 0, 137, 0]), 11: bytes([4, 0, 137, 0]), 22: bytes([12]), 24: bytes([4, 0, 12]),
+                   29: bytes([12, 28, 27])}.get(op, b'')
+            ins = bytes([op, rng.choice((0, 1, 2))])
+        elif kind == 'metavar':
+            lists = [[rng.choice((0, 1, 2, 3)) for _ in range(rng.choice((0, 0, 1, 2, 3)))] for _ in range(5)]
+            if rng.random() < 0.5:
+                lists[4] = [rng.choice((4, 5, 6)) for _ in range(rng.randint(1, 3))]   # non-empty last list, disjoint from e_fresh
+                lists[0] = [v for v in lists[0] if v not in lists[4]]
+            ins = bytes([9, rng.choice((0, 1, 2))])
+            for l in lists:
+                ins += bytes([len(l), *l])
+            pre = b''
+        else:
+            n = rng.randint(1, 3)
+            pre = b''.join(bytes([4, i]) for i in range(n)) + bytes([rng.choice((12, 13))])
+            ins = bytes([26, n, *[rng.choice((0, 1, 2)) for _ in range(n)]])
+        phase = rng.choice((0, 1, 2))
+        for cut in range(1, len(ins) + 1):
+            code = pre + ins[:cut]
+            trip = [b'', b'', b'']
+            trip[phase] = code
+            runner.add(*trip, 'operand_cut_at_end_of_phase' if cut < len(ins) else 'operand_complete_at_end_of_phase')
     runner.close()
 
     # real checker binary on files: exit status must agree with the harness verdict
